@@ -694,7 +694,28 @@ func (ex *Exec) hashBytes(fn string, bs []*term.T, n int) *ByteArr {
 		s := sha256.Sum256(c)
 		return newFlatBytes(s[:])
 	}
+	nprev := len(ex.env.hashApps)
 	h := ex.hash64(fn, bs)
+	// digests are compared byte-wise (not as tokens), so functional consistency and collision freedom
+	// are stated explicitly against every earlier application of the same function
+	if len(ex.env.hashApps) > nprev {
+		for i := 0; i < nprev; i++ {
+			p := ex.env.hashApps[i]
+			if p.fn != fn {
+				continue
+			}
+			var argsEq *term.T
+			if len(p.bytes) != len(bs) {
+				argsEq = term.False
+			} else {
+				argsEq = term.True
+				for k := range bs {
+					argsEq = term.BAnd(argsEq, term.Eq(p.bytes[k], bs[k]))
+				}
+			}
+			ex.Assume(term.Eq(argsEq, term.Eq(p.res, h)))
+		}
+	}
 	arr := newFlatZero(n)
 	for i := 0; i < n; i++ {
 		sh := uint8((i % 8) * 8)
